@@ -917,8 +917,20 @@ func (r *FeatureLocal) functionData(function model.FunctionType) api.FunctionDat
 }
 
 func (r *FeatureLocal) Information() *model.NodeManagementDetailedDiscoveryFeatureInformationType {
+	// read operations and description while both locks are held, so the
+	// announced combination is one the feature really had at some moment
+	r.muxOperations.RLock()
+	r.muxDescription.RLock()
+	operationsCopy := make(map[model.FunctionType]api.OperationsInterface, len(r.operations))
+	for key, value := range r.operations {
+		operationsCopy[key] = value
+	}
+	description := r.description
+	r.muxDescription.RUnlock()
+	r.muxOperations.RUnlock()
+
 	var funs []model.FunctionPropertyType
-	for fun, operations := range r.Operations() {
+	for fun, operations := range operationsCopy {
 		var functionType = model.FunctionType(fun)
 		sf := model.FunctionPropertyType{
 			Function:           &functionType,
@@ -933,7 +945,7 @@ func (r *FeatureLocal) Information() *model.NodeManagementDetailedDiscoveryFeatu
 			FeatureAddress:    r.Address(),
 			FeatureType:       &r.ftype,
 			Role:              &r.role,
-			Description:       r.Description(),
+			Description:       description,
 			SupportedFunction: funs,
 		},
 	}
